@@ -55,6 +55,7 @@ func cmdCheck(id, tier string) int {
 	}
 	c := engine.NewCtx(id, tier, seed)
 	ck.Run(c)
+	checks.Cleanup()
 	if err := c.WriteEvidence(); err != nil {
 		fmt.Fprintln(os.Stderr, "evidence:", err)
 		return 2
